@@ -74,6 +74,10 @@ def stepLine (_ : Unit) (line : String) : Unit × String :=
         else if fn = "adddiagspec" then showOpt (Spec.addDiagonalShape? a b)
         else "bad-op"
       | _, _ => "bad-op"
+    | ["solveleft", a, b, l] =>
+      match parseNats? a, parseNats? b, parseNats? l with
+      | some a, some b, some l => showRes (Impl.solveLeft a b l)
+      | _, _, _ => "bad-op"
     | ["toeplitz", n, i, j] =>
       match n.toNat?, i.toInt?, j.toInt? with
       | some n, some i, some j => s!"ok {Impl.toeplitzIndex n i j}"
